@@ -2,7 +2,7 @@
 // verifies model == SUT after every op and runs the batteries of the property under check.
 #pragma once
 #include "hist.hh"
-#include "batteries.hh"
+#include "batteries3.hh"
 
 namespace sim {
 
